@@ -149,6 +149,9 @@ NOTED = [
  ("C08", "volume_weight_matrix / volume_weight_matrix_cells document 'format ... Defaults to dia.' while the signature default, the annotation and the sibling functions say csc (documentation only)."),
  ("C19", "the decorators allowed_mesh_types / forbidden_mesh_types (mesh/datatypes/type_checks.py) only inspect positional arguments: a mesh passed by its documented keyword bypasses the type guard (sampling.sample_polyline(mesh=<SurfaceMesh>, n_pts=2) answers instead of raising BadMeshTypeException). Outside the C19 statement; not exercised."),
  ("C14", "sphere_fibonacci(n, radius < ~4.6e-10) returns a broken triangulation: qhull's 'QJ' joggle has an absolute floor (~6.7e-12), so the joggled hull of a tiny sphere is garbage (repair: take the hull of the unit sample). C14's unit-of-length deviation runs this generator down to 2^-30 only and says so."),
+ ("C07", "face_area of a face with 5 or more corners fans the polygon around its barycentre taken as an absolute position: far from the origin the rounding of that position enters the area (relative error 1.2e-14 at distance/size 2^30, 1.3e-8 at 2^40, 3e-6 at 2^48); triangles, quads and cells are unaffected. Conditioning, not logic: C07's far-from-origin placements are bounded at distance/size <= 2e10 where the tree is right to 1e-9 (repair: subtract a corner before fanning)."),
+ ("C18", "documentation only: SurfaceFrameField(features=False, custom_features=det) still uses the detector's interior feature edges although the docstring says custom features are ignored when features is off; cotan_edge_diagonal documents 1/abs(cot a + cot b) but takes no absolute value."),
+ ("C12", "norm(Vec, 'l1') and distance(Vec, Vec, 'l1') return a 0-d Vec instead of a float (treated as a number by every comparison; outside the statement)."),
 ]
 
 
